@@ -757,10 +757,15 @@ fn field_rels<F: PrimeField>(out: &mut Vec<Rel>, fname: &str, tier: Tier) {
     out.push(Rel::new(format!("mv.ops/{}", fname), q(4000), 400 + 48 * tmax, move |t, o| mv::ops_rel::<F>(t, o, tmax)));
 }
 
+mod large;
+
 fn relations(tier: Tier) -> Vec<Rel> {
     let mut out = Vec::new();
     field_rels::<ark_test_curves::bls12_381::Fr>(&mut out, "bls12_381.Fr", tier);
     field_rels::<vh_core::zoo::T97>(&mut out, "T97", tier);
+    // large sparse extensions (12..=18 variables, up to 9000 stored entries): oracle over the support only
+    out.push(Rel::new("sparse-large/bls12_381.Fr", tier.pick(600, 6000), 40, |t, o| large::sparse_large_rel::<ark_test_curves::bls12_381::Fr>(t, o)).shrink_iters(200));
+    out.push(Rel::new("sparse-large/Gold", tier.pick(1000, 10000), 40, |t, o| large::sparse_large_rel::<vh_core::zoo::Gold>(t, o)).shrink_iters(200));
     out
 }
 
